@@ -654,7 +654,10 @@ Definition stub_a (pkg : nat) : vec := if Nat.eqb pkg O then [8; 16; 32] else [2
 Definition stub_calc1 (pkg name : nat) (p : option phase) (z : vec) (T P : Q) : Q :=
   stub_w name * (inject_Z (Z.of_nat (3 * (name + 1) + 7 * pkg)%nat)
                  + match p with None => 0 | Some q => inject_Z (Z.of_nat (5 * (q + 1))%nat) end
-                 + vdot (stub_a pkg) z + T / 64 + P / 16384).
+                 (* the composition weight depends on the phase, so that the multi-phase value is sensitive to how the
+                    material is distributed over the phases and not only to the overall composition *)
+                 + match p with None => 1 | Some q => 1 + inject_Z (Z.of_nat (q + 1)%nat) / 2 end * vdot (stub_a pkg) z
+                 + T / 64 + P / 16384).
 Definition stub_calcx (pkg name : nat) (l : list (phase * vec)) (T P : Q) : Q :=
   fold_right Qplus 0 (map (fun pz => stub_calc1 pkg name (Some (fst pz)) (snd pz) T P) l).
 
